@@ -430,6 +430,52 @@ func throttleWaitShape() (found, cancellable bool) {
 	return true, strings.Contains(txt, "WaitN(b.Ctx(),") && !strings.Contains(txt, "time.Sleep(") && !strings.Contains(txt, "ReserveN(")
 }
 
+// round 6: reportStats takes the counters with Swap(0); Bridge.cleanup runs its final report in a goroutine guarded by a timer
+func mappingStatsShape() (found, swaps bool) {
+	fset := token.NewFileSet()
+	f, err := parser.ParseFile(fset, filepath.Join(repoRoot(), "internal/client/mapping/base_utils.go"), nil, 0)
+	if err != nil {
+		return
+	}
+	fd := findMethod(f, "BaseMappingHandler", "reportStats")
+	if fd == nil {
+		return
+	}
+	txt := strings.ReplaceAll(nodeText(fset, fd.Body), " ", "")
+	return true, strings.Contains(txt, "BytesSent.Swap(0)") && strings.Contains(txt, "BytesReceived.Swap(0)")
+}
+
+func bridgeCleanupShape() (found, guarded bool) {
+	fset := token.NewFileSet()
+	f, err := parser.ParseFile(fset, filepath.Join(repoRoot(), "internal/protocol/session/tunnel/bridge.go"), nil, 0)
+	if err != nil {
+		return
+	}
+	fd := findMethod(f, "Bridge", "cleanup")
+	if fd == nil {
+		return
+	}
+	hasGo, hasTimer, syncCall := false, false, false
+	for _, st := range fd.Body.List {
+		txt := nodeText(fset, st)
+		switch st.(type) {
+		case *ast.GoStmt:
+			if strings.Contains(txt, "reportTrafficStats()") {
+				hasGo = true
+			}
+		case *ast.SelectStmt:
+			if strings.Contains(txt, "time.After(") {
+				hasTimer = true
+			}
+		case *ast.ExprStmt:
+			if strings.Contains(txt, "reportTrafficStats()") {
+				syncCall = true
+			}
+		}
+	}
+	return true, hasGo && hasTimer && !syncCall
+}
+
 func coqBool(b bool) string {
 	if b {
 		return "true"
@@ -485,6 +531,12 @@ func gen() {
 	twf, twc := throttleWaitShape()
 	fmt.Println("(* Bridge.waitForTokens waits with the bridge context *)")
 	fmt.Printf("Definition ThrottleWaitShapeFound : bool := %s.\nDefinition ThrottleWaitUsesContext : bool := %s.\n", coqBool(twf), coqBool(twc))
+	msf, mss := mappingStatsShape()
+	fmt.Println("(* BaseMappingHandler.reportStats takes both counters with Swap(0) *)")
+	fmt.Printf("Definition MappingStatsShapeFound : bool := %s.\nDefinition MappingStatsSwaps : bool := %s.\n", coqBool(msf), coqBool(mss))
+	bcf, bcg := bridgeCleanupShape()
+	fmt.Println("(* Bridge.cleanup runs its final traffic report in a goroutine and waits for it or for a timer *)")
+	fmt.Printf("Definition BridgeCleanupShapeFound : bool := %s.\nDefinition BridgeCleanupReportGuarded : bool := %s.\n", coqBool(bcf), coqBool(bcg))
 	fmt.Printf("Definition BatchUpdateThreshold : N := %d%%N.\n", int64(constants.BatchUpdateThreshold))
 }
 
